@@ -301,7 +301,8 @@ def answer (line : String) : String :=
       s!"{showOptDate c.lastJulianDate} {showOptDate c.firstGregorianDate} {showOptInt c.reformation} {b01 c.isReforming} {b01 c.isProleptic} same={b01 same}"
   | ["at_jdn", ct, j] => withCal ct fun c =>
       match i32? j with
-      | some j => withDate c j showDate
+      | some j => withDate c j fun d =>
+          s!"{showDate d} o0={d.ordinal0} d0={d.dayOrdinal0} os={b01 d.isJulian} ns={b01 d.isGregorian}"
       | none => "BADREQ"
   | ["at_ymd", ct, y, m, d] => withCal ct fun c =>
       match i32? y, monthOfTok m, u32? d with
